@@ -451,7 +451,7 @@ impl Monitor for C06 {
     }
     fn corpus_len(&self) -> u64 {
         let n = small_functions().len() as u64;
-        n * n + n
+        n * n + n + 6
     }
     fn floors(&self) -> Vec<(&'static str, u64)> {
         vec![
@@ -469,6 +469,7 @@ impl Monitor for C06 {
             ("class:new_accept", 50),
             ("class:new_reject", 50),
             ("class:sizes_up_to_40", 200),
+            ("class:long_identification_chain_on_a_thread_stack", 6),
             ("outcome:compose_Some", 100),
             ("outcome:compose_None", 100),
             ("outcome:coequalizer_Some", 100),
@@ -492,6 +493,31 @@ impl Monitor for C06 {
         if idx < n * n + n {
             ctx.class("exhaustive_single");
             self.single(ctx, &fs[(idx - n * n) as usize], r);
+            return;
+        }
+        if idx < n * n + n + 6 {
+            // long chains and stars of identifications in every orientation, on a thread with the default 2 MiB
+            // stack (an implementation whose merge trees degenerate into paths recurses 4*10^5 deep)
+            let m = if cfg!(miri) { 200usize } else { 400_000usize };
+            let shape = (idx - n * n - n) as usize;
+            let (a, b): (Vec<usize>, Vec<usize>) = match shape {
+                0 => ((0..m - 1).map(|i| i + 1).collect(), (0..m - 1).collect()),
+                1 => ((0..m - 1).collect(), (0..m - 1).map(|i| i + 1).collect()),
+                2 => ((0..m - 1).rev().map(|i| i + 1).collect(), (0..m - 1).rev().collect()),
+                3 => ((0..m - 1).rev().collect(), (0..m - 1).rev().map(|i| i + 1).collect()),
+                4 => ((0..m - 1).collect(), vec![m - 1; m - 1]),
+                _ => (vec![m - 1; m - 1], (0..m - 1).collect()),
+            };
+            ctx.class("long_identification_chain_on_a_thread_stack");
+            let (fa, fb) = (ff(a, m), ff(b, m));
+            let res = on_thread_stack(|| fa.coequalizer(&fb));
+            let input = json!({"points": m, "shape": shape});
+            if let Some(q) = must_return(ctx, "coequalizer", "long_chain", res, || input.clone()) {
+                ctx.check(matches!(&q, Some(q) if q.target == 1 && q.table.0.len() == m && q.table.0.iter().all(|&c| c == 0)), "coequalizer/partition-is-generated-equivalence/value/long_chain", || {
+                    json!({"input": input, "observed_classes": q.as_ref().map(|q| q.target)})
+                });
+            }
+            ctx.nontrivial(&("long_chain", shape));
             return;
         }
         match r.below(8) {
